@@ -218,6 +218,24 @@ impl Listener {
                         None => break Err(ListenerError::MultiplexerError),
                     }
                 },
+
+                // The remote client has been dropped and its non-waiting requests have been served.
+                // The end of the waiting requests must be noticed even when no local port is available.
+                wait_req_opt = self.wait_rx.recv(), if self.no_wait_dropped && !self.wait_dropped => {
+                    match wait_req_opt {
+                        Some(RemoteConnectMsg::Request(wait_req)) => {
+                            let local_port = self.port_allocator.allocate().await;
+                            break Ok(Some(wait_req.accept_from(local_port).await?));
+                        },
+                        Some(RemoteConnectMsg::ClientDropped) => {
+                            self.client_dropped(true);
+                            if self.closed {
+                                break Ok(None);
+                            }
+                        },
+                        None => break Err(ListenerError::MultiplexerError),
+                    }
+                },
             }
         }
     }
